@@ -168,7 +168,9 @@ def rule_conjunction(ctx, rid):
     if not exits:
         ctx.undecided(rid, fi, c1, 'no return path')
         return
-    ok1 = all(e.value[0] == 'call' and e.value[1] == 'numpy.all' and dict(e.value[3]).get('axis') == C(1)
+    ok1 = all((e.value[0] == 'call' and e.value[1] == 'numpy.all' and dict(e.value[3]).get('axis') == C(1))
+              or (e.value[0] == 'meth' and e.value[1] == 'all' and (dict(e.value[4]).get('axis') == C(1)
+                                                                     or e.value[3] == (C(1),)))
               for e in exits)
     if ok1:
         ctx.passed(rid, fi, c1)
@@ -233,6 +235,11 @@ def rule_counters(ctx, rid):
     bad = None
     n_sel = n_unsel = 0
     sel_term = ('sub', S(fi.params[0]), None)
+    counter_names = set()
+    for ls, b, stores in _loop_store_paths(exits):
+        for st_ in stores:
+            if st_[3][0] == 's' and '@F' in st_[3][1]:
+                counter_names.add(st_[3][1].split('@')[0])
     for ls, b, stores in _loop_store_paths(exits):
         sel = None
         for cn, truth, ln in b.conds:
@@ -266,12 +273,11 @@ def rule_counters(ctx, rid):
             for st_ in stores:
                 if st_[3] != C(-1):
                     bad = 'unselected cycle gets %s' % show(st_[3])[:40]
-            # no counter may move on this path
+            # the counter written for selected cycles must stand still on this path (other locals may change)
             for name, head in ls.head_env.items():
-                if head[0] == 's' and '@F' in head[1] and name in b.env and b.env[name] != head \
-                        and not name.startswith(fi.params[0]) and b.env[name][0] != 'setitem' \
-                        and name != (ls.var[1].split('@')[0] if ls.var[0] == 's' else ''):
-                    bad = 'variable %s changes on an unselected cycle' % name
+                if head[0] == 's' and '@F' in head[1] and name in b.env and name in counter_names \
+                        and alg.poly(b.env[name]) != alg.poly(head):
+                    bad = 'counter %s changes on an unselected cycle' % name
     if bad:
         ctx.violation(rid, fi, c1, bad)
     elif n_sel == 0 or n_unsel == 0:
@@ -288,7 +294,16 @@ def rule_counters(ctx, rid):
     c2 = 'chain vector: index gap 1 keeps the chain, gap > 1 opens the next one'
     c3 = 'chain vector: gaps are differences of the selected cycle indices, the first element starts chain 0'
 
+    init_ok_vectorised = False
+
     def strip_gap(t):
+        # np.diff(x, prepend=x[:1] - 1) == r_[1, diff(x)]  (first step is 1 by construction)
+        if t[0] == 'call' and t[1] == 'numpy.diff' and len(t[2]) == 1:
+            pre = dict(t[3]).get('prepend')
+            x = t[2][0]
+            if pre is not None and pre == ('bin', '-', ('sub', x, ('slice', NONE, C(1), NONE)), C(1)) \
+                    and set(dict(t[3])) <= {'prepend'}:
+                return ('sub', ('ref', 'numpy.r_'), ('tuple', (C(1), ('call', 'numpy.diff', (x,), ()))))
         # r_[1, diff(inds)][:len(inds)] == r_[1, diff(inds)] for non-empty inds
         if t[0] == 'sub' and t[2][0] == 'slice' and t[2][1] == NONE and t[2][3] == NONE \
                 and t[2][2] == ('call', 'builtins.len', (inds,), ()):
@@ -335,6 +350,11 @@ def rule_counters(ctx, rid):
         form = 'vectorised'
         for e in exits:
             v = e.value
+            if v[0] == 'call' and v[1] == 'numpy.where' and len(v[2]) == 3 and v[2][0][0] == 'cmp' and v[2][2] == C(-1):
+                # np.where(g >= 1, cumsum(g > 1), -1)  ==  (-1 vector)[g >= 1] = cumsum(g > 1)[g >= 1]
+                init_ok_vectorised = True
+                v = ('setitem', ('bin', '-', ('call', 'numpy.zeros_like', (), ()), C(1)), v[2][0],
+                     ('sub', v[2][1], v[2][0]))
             if v[0] == 'setitem' and v[2][0] == 'cmp' and v[3][0] == 'sub' and v[3][2] == v[2]:
                 m = v[2]
                 g = strip_gap(m[2])
@@ -371,7 +391,9 @@ def rule_counters(ctx, rid):
                 init = n2
                 break
         c = '%s vector is initialised to -1' % txt
-        if init is not None and unparse(init.value).replace(' ', '').endswith('-1') and 'zeros' in unparse(init.value):
+        if txt == 'chain' and init_ok_vectorised:
+            ctx.passed(rid, f2, c, 'np.where(..., ..., -1)')
+        elif init is not None and unparse(init.value).replace(' ', '').endswith('-1') and 'zeros' in unparse(init.value):
             ctx.passed(rid, f2, c)
         else:
             ctx.violation(rid, f2, c, 'initialisation %s' % (unparse(init)[:60] if init else 'not found'))
